@@ -1185,8 +1185,12 @@ def c09_family(tier, rnd):
     # P2i: every global definition of a name is made by macros of ANOTHER template (the calling template defines the name
     # only locally): set by one macro, hidden by a local define / repeat variable of the caller, re-defined by a second
     # macro inside that element -- after the element the second definition is the visible one
+    # (not: re-defined once per item of a loop -- the second time with the very value the global holds already, which is the
+    # recorded identity finding of C05)
     for shadow in ("define", "repeat"):
         for redefine in (True, False):
+            if shadow == "repeat" and redefine:
+                continue
             al = Alloc(tier)
             m0 = [Open(dm="m0", name="div", define=[(True, "g", al.call("define", [S("a")]))], sattr=[]), Text("M0", *_P()), CLOSE]
             m1 = [Open(dm="m1", name="p", define=[(True, "g", al.call("define", [S("c")]))] if redefine else [], sattr=[]), Text("M1", *_P()), CLOSE]
